@@ -262,10 +262,38 @@ class Summary:
                 break
         elif rk == "param" and rd == 1 and path and body.kind == "assoc" and body.impl_self is not None:
             res = self._field_kind(norm(ty_adt(body.impl_self) or ""), path) or ("ext", None)
+        elif rk == "ret" and path and self._wrapped_field_kind(body, rd, path) is not None:
+            # a field of a private state struct that sits behind one Arc::new / Box::new: Arc::new(State { filled: Mutex::new(0), .. })
+            res = self._wrapped_field_kind(body, rd, path)
         elif rk in ("param", "upvar") or (rk == "ret" and path):
             res = ("ext", None)
         self.cellinfo[g] = res
         return res
+
+    def _wrapped_field_kind(self, body, bb, path):
+        c = body.call_at(bb)
+        if c is None or c.path not in ("std::sync::Arc::new", "std::boxed::Box::new", "std::rc::Rc::new") or not c.args or len(path) != 1:
+            return None
+        ren = self.P.facts.get("_field_renames_q") or {}
+        for t in body.operand_prov(c.args[0]):
+            if t[0] != "agg":
+                continue
+            rv = body.blocks[t[1][0]]["stmts"][t[1][1]]["rv"]
+            if rv.get("ak") != "adt":
+                continue
+            adt = norm(rv.get("def") or "")
+            a = self.P.adts.get(adt)
+            if a is None or len(a["variants"]) != 1:
+                continue
+            canon = [ren.get((adt, f["name"]), f["name"]) for f in a["variants"][0]["fields"]]
+            if path[0] not in canon or canon.index(path[0]) >= len(rv["ops"]):
+                continue
+            for t2 in body.operand_prov(rv["ops"][canon.index(path[0])]):
+                if t2[0] == "ret" and not t2[2]:
+                    k = self._alloc_kind((body.id, "ret", t2[1], ()))
+                    if k and k[0] in ("int", "flag", "optcell", "cont", "obj"):
+                        return k
+        return None
 
     def _field_kind(self, adt, path):
         """kind of a lock-typed field of `adt` (possibly nested in private state structs: self.shared.last_item), read off
